@@ -11,6 +11,8 @@ Mirrors the Go code of /repo **as it is now** (after the `fix:` commits), functi
 | `types/stringtype.go   stringValue.ToKey`    (the raw bytes)                   | `kb (.str s) = s`            |
 | `types/undeftype.go / defaulttype.go / booleantype.go  ToKey`                | `kb` (first three arms)      |
 | `types/regexptype.go   Regexp.ToKey / Equals` (pattern source)               | `kb`, `veq`                  |
+| `types/timespantype.go Timespan.ToKey / Equals / Int` (whole seconds only!)   | `tsSecs`, `timespanKey`, `veq` |
+| `types/timestamptype.go Timestamp.ToKey / Equals` (seconds and nanoseconds)   | `timestampKey`, `veq`        |
 | `types/binarytype.go   Binary.ToKey / Equals`                                | `kb`, `veq`                  |
 | `types/types.go        appendElementKey`     (uvarint length, string marker)   | `frame`, `mark`, `ek`        |
 | `encoding/binary       PutUvarint`                                            | `uvarint`                    |
@@ -37,7 +39,7 @@ Go runtime faults: `px.ToKey` of a value that contains a `Sensitive` panics with
 answers `none` exactly then (`keyable`).  `Equals`, `Get`, `Unique` reach that panic only through a Hash *key* that
 contains a Sensitive (`hashKeysKeyable`); the driver prints `unkeyable` for such operands (so does the harness).
 
-Not modelled (no theorem speaks about them): Timespan, Timestamp, SemVer, SemVerRange, URI values, objects, and every
+Not modelled (no theorem speaks about them): SemVer, SemVerRange, URI values, objects, and every
 type other than the eleven above (in particular the String types with a size or a value, Struct, Hash, Pattern, Object).
 -/
 namespace Pcore.ValueEq
@@ -66,6 +68,13 @@ def feq (a b : Nat) : Bool := !fIsNaN a && !fIsNaN b && (a == b || (fIsZero a &&
 /-- `if fv == 0 { fv = 0 }` -/
 def fnorm (b : Nat) : Nat := if fIsZero b then 0 else b
 def floatKey (b : Nat) : Bytes := [1, 0x66] ++ be64 (fnorm b)
+
+/-- `Timespan.Int()`: `Nanoseconds() / 1e9`, Go's integer division (truncation towards zero) -/
+def tsSecs (nanos : Int) : Int := Int.tdiv nanos 1000000000
+/-- `Timespan.ToKey`: the whole seconds only -/
+def timespanKey (nanos : Int) : Bytes := [1, 0x44] ++ be64 (u64OfInt (tsSecs nanos))
+/-- `Timestamp.ToKey`: `Unix()` then `Nanosecond()`, eight bytes each -/
+def timestampKey (secs nanos : Int) : Bytes := [1, 0x54] ++ (be64 (u64OfInt secs) ++ be64 (u64OfInt nanos))
 
 def boolKey (b : Bool) : Bytes := [1, 0x62, if b then 1 else 0]
 def undefKey : Bytes := [1, 0x75]
@@ -275,6 +284,8 @@ inductive Val where
   | entry (k v : Val)
   | sensitive (v : Val)
   | typ (t : Ty)
+  | timespan (nanos : Int)
+  | timestamp (secs nanos : Int)
   deriving Inhabited
 
 /-- `appendElementKey` marks a string element -/
@@ -298,6 +309,8 @@ def kb : Val → Bytes
   | .entry k v => [0, 0x41] ++ (frame (mark k ++ kb k) ++ (frame (mark v ++ kb v) ++ []))
   | .sensitive _ => []
   | .typ t => tyKey t
+  | .timespan n => timespanKey n
+  | .timestamp s n => timestampKey s n
 /-- the framed element keys of an array, concatenated -/
 def kbL : List Val → Bytes
   | [] => []
@@ -368,6 +381,8 @@ def veq : Val → Val → Bool
       | _ => false
   | .sensitive _, _ => false
   | .typ a, y => match y with | .typ b => tyEq a b | _ => false
+  | .timespan a, y => match y with | .timespan b => tsSecs a == tsSecs b | _ => false
+  | .timestamp s n, y => match y with | .timestamp s' n' => s == s' && n == n' | _ => false
 /-- pointwise `vs[i].Equals(ws[i])` (lengths already compared) -/
 def veqL : List Val → List Val → Bool
   | [], _ => true
